@@ -115,6 +115,33 @@ def d3_wait_returns_on_first_failure(ctx, rm: REModel):
     ctx.ob("C12.D3-wait-ends-at-first-failure", cname(wf, None, "asyncio.wait(..., **msg.kwargs)"), ok, "" if ok else "return_when is not forwarded to asyncio.wait", where=where(wf, wf.node))
     ok = bool(A.find_calls(w.node, "self._groups.pop")) and bool(A.find_calls(w.node, "asyncio.create_task"))
     ctx.ob("C12.D3-wait-ends-at-first-failure", cname(w, None, "waits on the futures of the named group"), ok, "" if ok else "wait no longer waits on the group's futures", where=where(w, w.node))
+    # with futures pending in the group, no normal return before the wait on them has been awaited
+    pops = [x for x in A.walk_stmts(w.node.body) if isinstance(x, (ast.Assign, ast.AnnAssign)) and x.value is not None and A.find_calls(x.value, "self._groups.pop")
+            and isinstance(A.targets_of(x)[0], ast.Name)]
+    F = A.targets_of(pops[0])[0].id if pops else None
+    g = q.cfg(w, q.quiet_policy(rm.repo))
+
+    def awaits_the_group(n):
+        if n.stmt is None or n.kind != "stmt":
+            return False
+        for aw in [x for x in ast.walk(n.stmt) if isinstance(x, ast.Await)]:
+            v = A.norm(q.expand_at(g, n.id, aw.value, keep=(F,)))
+            if F is not None and ("wait_for_first_exception(%s)" % F in v or ("self._wait_for(" in v and F in v)):
+                return True
+        return False
+
+    tests = [i for i, n in enumerate(g.nodes) if n.kind == "test" and isinstance(n.stmt, ast.If) and F is not None
+             and A.norm(n.stmt.test) in (F, f"len({F}) > 0", f"len({F})", f"{F} != set()", f"not {F}", f"len({F}) == 0", f"{F} == set()")]
+    if not tests:
+        ctx.ob("C12.D3-wait-awaits-the-group", cname(w, None, "branch on `the group has pending futures`"), False,
+               "the test on the popped group's futures was not found (anchor lost)", where=where(w, w.node))
+    for t in tests:
+        neg = A.norm(g.nodes[t].stmt.test) in (f"not {F}", f"len({F}) == 0", f"{F} == set()")
+        starts = [v for v, lab in g.succ[t] if lab == ("F" if neg else "T")]
+        wit = g.must_pass(starts, awaits_the_group, exits=[g.exit])
+        ctx.ob("C12.D3-wait-awaits-the-group", cname(w, None, "pending futures: every normal return has awaited the wait on the group"), wit is None,
+               "" if wit is None else "wait can return while statuses of the group are pending without having awaited them: a failure already recorded on (or about to "
+               "reach) one of them is dropped with the group instead of being raised at the wait", nontrivial=True, witness=wit[-6:] if wit else None, where=where(w, g.nodes[t].stmt))
     # every status-returning command registers the status with its group
     for cmd in ("set", "trigger", "kickoff", "complete", "prepare", "stage", "unstage"):
         h = rm.handler(cmd)
